@@ -3,6 +3,7 @@ import LiteFSVerif.Driver.RWMutexD
 import LiteFSVerif.Driver.CodecD
 import LiteFSVerif.Driver.EngineD
 import LiteFSVerif.Driver.ClusterD
+import LiteFSVerif.Driver.ProxyD
 
 open LiteFSVerif LiteFSVerif.Driver
 
@@ -18,6 +19,7 @@ def main (args : List String) : IO UInt32 := do
   | ["import"] => loop stdin stdout EngineD.step {}; return 0
   | ["replica"] => loop stdin stdout EngineD.step {}; return 0
   | ["cluster"] => loop stdin stdout ClusterD.step {}; return 0
+  | ["proxy"] => loop stdin stdout ProxyD.step {}; return 0
   | ["codec"] => loop stdin stdout Codec.stepModel (); return 0
   | _ =>
     IO.eprintln "usage: modeld <suite>"
